@@ -740,3 +740,41 @@ PROPS["C20"] = {"jobs": c20_jobs, "assumptions": COMMON_ASSUME + [
     "the byte-exact model comparisons of C07 (every frame byte incl. padding) and C04/C05 (every delivered byte) also exclude uninitialised output bytes; this check adds builders, TECMP conversion and reassembly",
     "shapes as in the underlying harnesses (concrete sizes)"],
     "level": "bounded symbolic model checking of a two-run self-composition (non-interference of uninitialised memory with outputs)"}
+
+
+# ------------------------------------------------------------------ C19 separate instances (footprint argument)
+def c19_jobs():
+    """every store / memcpy / memset of every library function is instrumented with 'does not write into an object with
+    static storage duration of the library'; the instrumented module runs through representative harnesses of the other
+    properties (their own assertions are foreign to C19 and skipped)."""
+    import copy
+    picks = []
+    picks += [j for j in enc_jobs(["h_enc_model"], [enc_shape([8]), enc_shape([8, 41, 8]), enc_shape([8, 8], [1, 3], minb=64)], [enc_shape([17], maxb=40), enc_shape([], api=1)])]
+    picks += [j for j in enc_twice_jobs() if j.tier == "quick"][:2]
+    picks += [j for j in c02_jobs() if j.defs.get("N") in (32, 48) and j.defs.get("VER") == 1 and "FMT" not in j.defs]
+    picks += [j for j in c02_jobs() if j.defs.get("FMT") == 3 and j.defs.get("N") in (62, 65)]
+    picks += [j for j in tecmp_jobs() if j.tier == "quick" and (j.defs["MT"], j.defs["N"]) in ((2, 52), (3, 41), (3, 38), (0x55, 40), (2, 64))]
+    q5, _ = c05_shapes(5)
+    picks += [j for j in seq_jobs(q5[:4], []) if j.entry == "h_seq" and j.variant == "mapmodel"]
+    picks += [j for j in seq_jobs(q5[:1], []) if j.variant == "real" and j.entry == "h_seq"]
+    picks += [j for j in c16_jobs() if j.tier == "quick"][:6]
+    picks += [j for j in c13_jobs() if j.tier == "quick" and j.defs.get("CLS") in (1, 6, 7)][:6]
+    picks += [j for j in c14_jobs() if j.tier == "quick"][:4]
+    picks += [j for j in c01_jobs() if j.tier == "quick"][:3]
+    jobs = []
+    for j in picks:
+        k = copy.copy(j)
+        k.ll2c_opts = list(j.ll2c_opts) + ["--static-writes"]
+        k.sym = j.sym + " | instrumented: every library store/memcpy/memset asserts that its target is not a static-storage object of the library"
+        jobs.append(k)
+    return jobs
+
+
+PROPS["C19"] = {"jobs": c19_jobs, "technique": "bounded symbolic execution (CBMC) of a write-footprint instrumentation of the real code: no API call writes to static storage; schedules lifted by the data-race-freedom argument; solver hits replayed under ThreadSanitizer",
+                "assumptions": COMMON_ASSUME + [
+    "schedule quantifier by a footprint argument, not by encoding interleavings (CBMC 6.11 rejects pointer-dereferencing threads: 'pointer handling for concurrency is unsound'): threads that drive distinct instances can only interfere "
+    "through an object with static storage duration written by at least one of them; instances, their heap and the callers' buffers are disjoint by premise; malloc is the environment's and thread-safe",
+    "the set of static-storage objects and the set of library functions are recomputed from /repo's IR on every run (ll2c --list-statics); thread_local objects are per-thread and exempt; atomic stores are exempt",
+    "a solver hit is reported as a violation only if a 4-thread run of separate instances under ThreadSanitizer reports a data race or a result digest differs from the single-threaded digest (rt/c19_native.cpp)",
+    "shapes of the reused harnesses bound the explored executions"],
+    "level": "bounded symbolic model checking of 'no library write targets static storage' over the API harnesses; the lift to all schedules is the standard data-race-freedom argument (trusted, DESIGN.md)"}
